@@ -127,6 +127,11 @@ func c12CheckRef(m vfshared.Method, req, resp, refReq, refResp proto.Message, re
 	if _, err := rs.Translate(wantResp.ProtoReflect()); err != nil {
 		return fmt.Errorf("HARNESS: reference failed on response: %v", err)
 	}
+	// one interceptor serves every message of a connection: what passed before (here: empty messages of the same types,
+	// like a watermark-only stream message or an empty page) must not change how the next one is treated
+	if _, _, perr := vfRunInterceptor(ti, context.Background(), m, vfshared.NewMessage(m.In), vfshared.NewMessage(m.Out)); perr != nil {
+		return fmt.Errorf("interceptor returned error on empty messages: %v", perr)
+	}
 	gotReq, gotResp, err := vfRunInterceptor(ti, context.Background(), m, proto.Clone(req), proto.Clone(resp))
 	if err != nil {
 		return fmt.Errorf("interceptor returned error: %v", err)
